@@ -23,7 +23,7 @@ Print Assumptions crc64_detects_every_burst_up_to_64_bits.
 
 Theorem damaged_stream_flags_are_rejected : forall fuel f0 f1 g0 g1 rest,
   byte_ok f0 -> byte_ok f1 -> byte_ok g0 -> byte_ok g1 -> [g0; g1] <> [f0; f1] ->
-  xstatus (stream_decode fuel true
+  xstatus (stream_decode fuel false true
      (xz_init (HEADER_MAGIC ++ [g0; g1] ++ le_bytes 4 (crc32 [f0; f1] 0) ++ rest))) = DataError.
 Proof. exact stream_header_flags_damage_rejected. Qed.
 Print Assumptions damaged_stream_flags_are_rejected.
